@@ -203,6 +203,21 @@ static int iv_fd_epoll_poll(struct iv_state *st,
 
 	run_events = 0;
 	for (i = 0; i < ret; i++) {
+		if (batch[i].data.ptr == &st->time) {
+			/*
+			 * This thread created a timerfd while the process
+			 * was still using the epoll-timerfd method, which
+			 * has since been replaced by plain epoll (because
+			 * timerfd_create() failed in another thread).
+			 * Poll timeouts are computed the plain way from
+			 * now on, so get rid of the timerfd, which also
+			 * removes it from the epoll set.
+			 */
+			close(st->u.epoll.timer_fd);
+			st->u.epoll.timer_fd = -1;
+			continue;
+		}
+
 		if (batch[i].data.ptr != st) {
 			struct iv_fd_ *fd;
 			uint32_t events;
